@@ -614,7 +614,46 @@ pub fn cmd_selftest(args: &[String]) -> i32 {
         let _ = std::fs::remove_file(&s.fingerprint_file);
         let _ = std::fs::remove_file(&s2.fingerprint_file);
     }
+    // Third part: record -> replay round trip, in this process. Every execution is run once from
+    // its PRNG and once from the decision list it recorded; fingerprint (all atomic steps and
+    // scheduling picks), step count and verdict must agree, or a replay file would not reproduce.
+    let rt_execs = (execs / 4).max(100);
+    let mut rt_done = 0u64;
+    for weak in [false, true] {
+        for i in 0..rt_execs {
+            let es = crate::exec_seed(seed, &prop, 900 + weak as u64, i);
+            let (case, rng) = crate::case_for(&prop, false, weak, es);
+            let a = crate::execute(&case, verif_rt::core::Source::Random(rng), false);
+            let picks: Vec<u16> = a.trace.iter().map(|d| d.pick).collect();
+            let b = crate::execute(&case, verif_rt::core::Source::Replay { picks, pos: 0 }, false);
+            rt_done += 1;
+            let same = a.out.fingerprint == b.out.fingerprint
+                && a.out.stats.steps == b.out.stats.steps
+                && a.failure.as_ref().map(|f| &f.0) == b.failure.as_ref().map(|f| &f.0)
+                && a.trace.len() == b.trace.len();
+            if !same {
+                println!(
+                    "DIVERGENCE record/replay: {} exec-seed {:x} mode {}: fingerprint {:x} vs {:x}, steps {} vs {}, decisions {} vs {}, verdict {:?} vs {:?}",
+                    prop,
+                    es,
+                    if weak { "weak" } else { "sc" },
+                    a.out.fingerprint,
+                    b.out.fingerprint,
+                    a.out.stats.steps,
+                    b.out.stats.steps,
+                    a.trace.len(),
+                    b.trace.len(),
+                    a.failure.as_ref().map(|f| &f.0),
+                    b.failure.as_ref().map(|f| &f.0)
+                );
+                ok = false;
+                break;
+            }
+        }
+    }
+    crate::world::leak_all();
     if ok {
+        println!("determinism: OK — {} executions of {} replayed from their recorded decision lists with identical fingerprints", rt_done, prop);
         println!(
             "determinism: OK — {} workers x {} executions of {} reproduced identical event-log hashes in a second process",
             a.len(),
